@@ -104,6 +104,8 @@ type flightSt struct {
 	gensAt   int // len(gens[k]) when the flight began
 	gid      int64
 	reqOpen  bool // the request is at the server, the transfer has not ended (freq .. fbody)
+	unasked  bool // every waiter had left before the body was received, yet the transfer went on
+	asked    bool // somebody was still waiting for the flight when the body had been received
 	resGen   int  // index of the rc the flight returns
 }
 
@@ -128,6 +130,7 @@ type sched struct {
 	abandon  atomic.Bool
 	mu       sync.Mutex // gens, ginos: touched by hooks on other goroutines
 	byPtr    map[*byte]*descRef
+	known    sync.Map // *byte -> true: the descriptions of this scenario (read by hooks on any goroutine)
 	gens     map[int][]any
 	ginos    map[int][]uint64
 	detached map[any]bool // rcs whose file was open when the arena was Closed
@@ -167,8 +170,16 @@ func (s *sched) hook(site, key string) {
 	if !ok {
 		return
 	}
+	// a flight of an earlier, abandoned scenario may still be running (another arena, another
+	// server): it is none of this scheduler's business
+	if _, ok := s.known.Load(unsafe.StringData(key)); !ok {
+		return
+	}
 	if site == "c10.flight.stored" {
 		e := s.arena.ArenaEntryForVerif(key)
+		if e == nil {
+			return
+		}
 		_, ino := libindex.RcInodeForVerif(e)
 		s.mu.Lock()
 		s.gens[k] = append(s.gens[k], e)
@@ -678,14 +689,7 @@ func (s *sched) settle() {
 					s.broken = true
 				}
 				t.st = "failed"
-				if f := s.flights[t.key]; f != nil && f.leader == t.id && f.reqOpen && !s.broken {
-					s.pump("cancelled-transfer-fails", func() bool { return f.at != nil })
-					f.reqOpen = false
-					s.srv.openGate(t.key)
-					if !s.quiet {
-						s.r.Count("branch:leader-cancelled-mid-transfer")
-					}
-				}
+				s.leaderGone(t)
 			}
 		}
 		for len(c.tasks) < len(c.keys) && c.running() < c.limit && !s.broken {
@@ -773,6 +777,7 @@ func (s *sched) spawnAt(k int, badURI, alt bool) *task {
 		}
 	}
 	s.byPtr[unsafe.StringData(t.desc.Digest)] = &descRef{t: t}
+	s.known.Store(unsafe.StringData(t.desc.Digest), true)
 	s.tasks = append(s.tasks, t)
 	do := s.arena.FetchIntoForVerif(ctx, t.layer, &t.cl, &t.desc)
 	go func() {
@@ -890,6 +895,7 @@ func (s *sched) fnet(k int, ok bool, mode int32) {
 	out := "neterr"
 	if site == "fetched" {
 		out = "fetched"
+		s.noteAsked(k)
 	}
 	s.heldCheck(k, before)
 	s.emit(fmt.Sprintf("fnet %d %s", k, b01(ok)), out)
@@ -918,6 +924,17 @@ func (s *sched) ftmpfail(k int) {
 		out = "requested-without-a-temp-file"
 	}
 	s.emit(fmt.Sprintf("ftmpfail %d", k), out)
+}
+
+// noteAsked records, when the body of key k has been received, whether anybody still waits
+// for the flight (the finding orphan-after-cancel is about waiters that leave after this point).
+func (s *sched) noteAsked(k int) {
+	f := s.flights[k]
+	for _, t := range s.tasks {
+		if t.key == k && t.st == "waiting" {
+			f.asked = true
+		}
+	}
 }
 
 // heldCheck is the statement: no download of a layer somebody is holding (unless the whole
@@ -973,6 +990,7 @@ func (s *sched) fbody(k int, srvOK bool, mode int32) {
 	out := "neterr"
 	if s.pump("transfer-ends", func() bool { return f.at != nil }) && f.at.site == "c10.flight.fetched" {
 		out = "fetched"
+		s.noteAsked(k)
 	}
 	s.emit(fmt.Sprintf("fbody %d %s", k, b01(srvOK)), out)
 }
@@ -1028,7 +1046,10 @@ func (s *sched) fend(k int) {
 	res := "err"
 	if f.resultOK {
 		res = "rc"
-		if len(ws) == 0 {
+		if len(ws) == 0 && !f.unasked && f.asked {
+			// the shape of finding orphan-after-cancel: the last waiter left after the body
+			// had been received (on the unchanged code a transfer whose last waiter leaves
+			// earlier fails with that waiter's context)
 			s.orphaned[k] = true
 		}
 	}
@@ -1083,17 +1104,68 @@ func (s *sched) cancelTask(t *task) {
 			s.broken = true
 		}
 		t.st = "failed"
-		if f := s.flights[t.key]; f != nil && f.leader == t.id && f.reqOpen && !s.broken {
-			// the transfer runs under this context: it fails now, the flight goes on to its end
-			s.pump("cancelled-transfer-fails", func() bool { return f.at != nil })
-			f.reqOpen = false
-			s.srv.openGate(t.key)
-			if !s.quiet {
-				s.r.Count("branch:leader-cancelled-mid-transfer")
+		s.leaderGone(t)
+	}
+	s.emit(fmt.Sprintf("cancel %d", t.id), out)
+}
+
+// pumpFor is pump without a verdict: it reports whether cond came to hold within d.
+func (s *sched) pumpFor(d time.Duration, cond func() bool) bool {
+	deadline := time.Now().Add(d)
+	for !cond() {
+		select {
+		case p := <-s.arrive:
+			s.place(p)
+		case dn := <-s.doneCh:
+			dn.t.finished, dn.t.err = true, dn.err
+		case k := <-s.srv.arrived:
+			s.atServer[k] = true
+		case res := <-s.realized:
+			res.call.result = res
+		case <-time.After(50 * time.Microsecond):
+			if time.Now().After(deadline) {
+				return false
 			}
 		}
 	}
-	s.emit(fmt.Sprintf("cancel %d", t.id), out)
+	return true
+}
+
+// leaderGone: task t has left through ctx.Done. If it leads a flight whose request is at the
+// server (stalled before the headers or in mid-body), that request runs under t's context:
+// the transfer fails now and the flight goes on to its end. If instead the transfer stays
+// alive, the flight is no longer tied to anybody who waits for it; the scenario then lets
+// the server finish, so that what the flight does with the file it was not asked for any
+// more (stored with count 0, kept for ever) shows as a concrete failing input.
+func (s *sched) leaderGone(t *task) {
+	f := s.flights[t.key]
+	if f == nil || f.leader != t.id || !f.reqOpen || s.broken {
+		return
+	}
+	if !s.quiet {
+		s.r.Count("branch:leader-cancelled-mid-transfer")
+	}
+	if s.pumpFor(30*time.Second, func() bool { return f.at != nil }) {
+		f.reqOpen = false
+		s.srv.openGate(t.key)
+		return
+	}
+	waiters := 0
+	for _, o := range s.tasks {
+		if o.key == t.key && o.st == "waiting" && o != t {
+			waiters++
+		}
+	}
+	s.fail("", fmt.Sprintf("transfer-of-key=%d-stays-alive-after-the-context-it-runs-under-was-cancelled-in-mid-transfer waiters-left=%d", t.key, waiters))
+	// let the server deliver the rest and see what becomes of the file
+	s.srv.mode[t.key].Store(srvOK)
+	s.srv.openGate(t.key)
+	f.reqOpen = false
+	if !s.pumpFor(30*time.Second, func() bool { return f.at != nil }) {
+		s.broken = true
+		return
+	}
+	f.unasked = waiters == 0
 }
 
 func (s *sched) stepTask(t *task, what string) string {
@@ -1284,6 +1356,7 @@ func (s *sched) realize(px *proxy, limit int, keys []int, bad []bool) {
 	for i, k := range keys {
 		c.descs[i] = s.srv.desc(k, bad[i])
 		s.byPtr[unsafe.StringData(c.descs[i].Digest)] = &descRef{call: c, idx: i}
+		s.known.Store(unsafe.StringData(c.descs[i].Digest), true)
 	}
 	if px.used && len(px.cleanup) == 0 && !s.quiet {
 		s.r.Count("branch:realize-after-close")
